@@ -555,6 +555,18 @@ func isInvariant(v ssa.Value, blocks map[*ssa.BasicBlock]bool) bool {
 			return isInvariant(canon(c.Call.Args[0]), blocks)
 		}
 	}
+	// a conversion / arithmetic on invariant operands, re-evaluated in the header (`i < int(count)`)
+	switch x := v.(type) {
+	case *ssa.Convert:
+		return isInvariant(x.X, blocks)
+	case *ssa.ChangeType:
+		return isInvariant(x.X, blocks)
+	case *ssa.BinOp:
+		if !blocks[x.Block()] {
+			return true
+		}
+		return isInvariant(x.X, blocks) && isInvariant(x.Y, blocks)
+	}
 	if in, ok := v.(ssa.Instruction); ok {
 		return !blocks[in.Block()]
 	}
